@@ -77,7 +77,7 @@ func writerFingerprint(w *proto.Writer, pending []byte) uint64 {
 
 // C14 — the vectored writer emits exactly what was chained, once, in order.
 func C14(c *vk.Ctx) {
-	c.Rule("explicit-state search over all operation sequences of length <= n (quick 6, thorough 7) over the 12-operation alphabet {ChainBuffer appending 0/1/3/70 bytes, ChainWrite of a 0/1/5-byte slice, Flush to a writer that accepts everything / fails after 0, 1, 4 bytes / reports a short write} x initial buffer capacity {0, 64}; every byte is position-unique; reference model = the byte string pending since the last flush; after every Flush the bytes delivered must be exactly pending (a prefix of it when the writer failed) and nothing delivered earlier may appear again. Plus path equivalence WriteBlock+Flush = EncodeBlock on a column corpus. states = distinct private writer states (reflect fingerprint incl. buffer length, offset, vector shape); transitions = operations executed.")
+	c.Rule("explicit-state search over all operation sequences of length <= n (quick 6, thorough 7) over the 12-operation alphabet {ChainBuffer appending 0/1/3/70 bytes, ChainWrite of a 0/1/5-byte slice, Flush to a writer that accepts everything / fails after 0, 1, 4 bytes / reports a short write} x initial buffer capacity {0, 64}; every byte is position-unique; reference model = the byte string pending since the last flush; after every Flush the bytes delivered must be exactly pending (a prefix of it when the writer failed) and nothing delivered earlier may appear again. Plus path equivalence WriteBlock+Flush = EncodeBlock on a column corpus (nine columns incl. the stateful LowCardinality / Array(LowCardinality) / Map(., LowCardinality) / JSON, with 3 rows and with zero rows). states = distinct private writer states (reflect fingerprint incl. buffer length, offset, vector shape); transitions = operations executed.")
 	depth := 6
 	if !c.Quick() {
 		depth = 7
@@ -186,7 +186,13 @@ func C14(c *vk.Ctx) {
 
 	// path equivalence on a small hand-made corpus (the full column registry runs under C01)
 	if c.Shard == 0 {
-		for _, rev := range []int{54460, 54453, 51902} {
+		for _, rev := range []int{54460, 54453, 51902, -54460, -51902} {
+			// negative: the same columns without rows (a block with columns and zero rows, as
+			// sent for an INSERT whose input is empty; stateful columns must write nothing)
+			rows := 3
+			if rev < 0 {
+				rev, rows = -rev, 0
+			}
 			var input []proto.InputColumn
 			u := proto.ColUInt64{1, 2, 3}
 			s := new(proto.ColStr)
@@ -199,22 +205,36 @@ func C14(c *vk.Ctx) {
 			arr.AppendArr([][]uint64{{1}, {}, {2, 3}})
 			nu := proto.NewColNullable[string](new(proto.ColStr))
 			nu.AppendArr([]proto.Nullable[string]{proto.NewNullable("v"), proto.Null[string](), proto.NewNullable("")})
+			alc := proto.NewArray[string](proto.NewLowCardinality[string](new(proto.ColStr)))
+			alc.AppendArr([][]string{{"p", "q"}, {}, {"p"}})
+			mlc := proto.NewMap[string, string](new(proto.ColStr), proto.NewLowCardinality[string](new(proto.ColStr)))
+			mlc.AppendKV([]proto.KV[string, string]{{Key: "k", Value: "v"}})
+			mlc.AppendKV(nil)
+			mlc.AppendKV([]proto.KV[string, string]{{Key: "k2", Value: "v"}})
+			js := new(proto.ColJSONStr)
+			js.AppendArr([]string{"{}", "{\"a\":1}", "[]"})
 			input = append(input, proto.InputColumn{Name: "u", Data: &u}, proto.InputColumn{Name: "s", Data: s}, proto.InputColumn{Name: "f", Data: f},
-				proto.InputColumn{Name: "lc", Data: lc}, proto.InputColumn{Name: "arr", Data: arr}, proto.InputColumn{Name: "nu", Data: nu})
-			blk := proto.Block{Info: proto.BlockInfo{BucketNum: -1}, Columns: len(input), Rows: 3}
+				proto.InputColumn{Name: "lc", Data: lc}, proto.InputColumn{Name: "arr", Data: arr}, proto.InputColumn{Name: "nu", Data: nu},
+				proto.InputColumn{Name: "alc", Data: alc}, proto.InputColumn{Name: "mlc", Data: mlc}, proto.InputColumn{Name: "js", Data: js})
+			if rows == 0 {
+				for _, in := range input {
+					in.Data.(proto.Resettable).Reset()
+				}
+			}
+			blk := proto.Block{Info: proto.BlockInfo{BucketNum: -1}, Columns: len(input), Rows: rows}
 			var eb proto.Buffer
 			if err := blk.EncodeBlock(&eb, rev, input); err != nil {
-				c.Violation("C14/path/encode-error", fmt.Sprint("rev=", rev), err.Error(), nil)
+				c.Violation("C14/path/encode-error", fmt.Sprint("rev=", rev, "/rows=", rows), err.Error(), nil)
 				continue
 			}
 			sink := &sink14{failAt: -1}
 			w := proto.NewWriter(sink, new(proto.Buffer))
 			if err := blk.WriteBlock(w, rev, input); err != nil {
-				c.Violation("C14/path/write-error", fmt.Sprint("rev=", rev), err.Error(), nil)
+				c.Violation("C14/path/write-error", fmt.Sprint("rev=", rev, "/rows=", rows), err.Error(), nil)
 				continue
 			}
 			if _, err := w.Flush(); err != nil || !bytes.Equal(sink.got, eb.Buf) {
-				c.Violation("C14/path/write-differs-from-encode", fmt.Sprint("rev=", rev), fmt.Sprintf("WriteBlock+Flush %s\nEncodeBlock %s", vk.Hex(sink.got), vk.Hex(eb.Buf)), nil)
+				c.Violation("C14/path/write-differs-from-encode", fmt.Sprint("rev=", rev, "/rows=", rows), fmt.Sprintf("WriteBlock+Flush %s\nEncodeBlock %s", vk.Hex(sink.got), vk.Hex(eb.Buf)), nil)
 			}
 			c.Eval("path equivalence", 1)
 		}
